@@ -12,10 +12,11 @@ CHECKS = {
  "C03": ("model_checking", "5.C03", "Ledger of authenticated, transaction-matched, symmetric success responses and of received nominations kept by the monitor; every change of the selected pair on full and lite agents is checked against it; USE-CANDIDATE never from a controlled agent; no downgrade on plain USE-CANDIDATE."),
  "C04": ("model_checking", "5.C04", "Virtual-clock walks with silence at/below/above the thresholds (D,F in {0,2000,3000} ms) incl. Restart; monitor checks the documented transition graph, notified = actual, timing rule after every tick, checking deadline, release on Failed; lifecycle model with clock model-checked exhaustively."),
  "C05": ("model_checking", "5.C05", "Same-role starts with tie-breaker orders <,>,= ; monitor applies RFC 8445 7.3.1.1 to every delivered conflicting request (487 vs silent switch, never treated as a check) and demands opposite roles + convergence after the fair suffix."),
+ "C07": ("model_checking", "5.C07", "Application writes of 5..8192 bytes (and STUN-framed payloads) before/after selection, across re-selection and Restart, with injected data datagrams from known and foreign sources; monitor checks the route of every written datagram (selected pair, else a best validated pair, else error), byte-identical single delivery, reader sees exactly the datagrams from known remote addresses, Conn and selected-pair counters equal the harness tallies; data actions are part of IceSession and every trace is validated against it."),
+ "C20": ("model_checking", "5.C20", "Renomination API driven on two real agents (2 pairs, values 1..3 and values near 2^24, reordering/loss/duplication, target pair valid or not yet valid on the controlled side); monitor keeps the highest value a controlled agent had to accept and the highest value the controlling agent saw acknowledged and checks AcceptMonotone, StaleIgnored, SwitchOnValid, SwitchWhenValidated, ControllingKeepsNewest, QuiescentAgreement, ValueOnWire, OnlyControllingEnabled; three directed schedules reproduce the known findings F-C20a/b in every run."),
  "C06": ("model_checking", "5.C06", "Snapshot invariants (unique ids, no duplicate pairs, pairs from current candidates, selection listed, id stability history, dedup, supersession preserves, no residue after Restart/Failed) on every recorded state of NAT/trickle/restart/injection walks; same invariants model-checked on IceSession."),
 }
 TODO = {
- "C07": "check not built yet (data-plane actions of IceSession are the next family to be bound)",
  "C08": "check not built yet (AgentClose model and close-point driver pending)",
  "C09": "check not built yet (Gather model and tallying fake Net pending)",
  "C10": "check not built yet (TaskLoop gates pending)",
@@ -28,7 +29,6 @@ TODO = {
  "C17": "check not built yet (Priority pending)",
  "C18": "check not built yet (Gather set oracle pending)",
  "C19": "check not built yet (Rewrite pending)",
- "C20": "check not built yet (renomination family of IceSession pending)",
 }
 def build(checks=CHECKS, todo=TODO, notes=None, extra=None):
     m = {"version": 1,
